@@ -9,18 +9,19 @@ from ..controls import load_controls
 
 EXPLANATION = ('(1) R-NULL check-then-use on every function of property.cpp (a pointer the function itself null-tests, '
                're-assigned from a list tail / NULL and dereferenced without a test). (2) The four hash tables Map<T>, Set<T>, '
-               'TagMap, StyleMap: every method (get_slot/set|add/del/resize/next/has/copy_from) meets its event obligations on the CFG '
-               'with affine loop summaries (sa/hashtable.py; no stored text is compared): the probe starts at items + hash % capacity and every '
-               'cursor step is followed by the wrap test, the load-factor test precedes get_slot and holds before the last free slot of every '
-               'reachable capacity, count++ only on an empty '
-               'slot, del empties + count-- once + re-inserts the following cluster until the first empty slot, resize re-inserts every '
-               'occupied item then takes over all three fields after clear(), next resumes one past the item and stops at items+capacity). Payload obligations per table: del/cluster-move '
+               'TagMap, StyleMap are model-checked by interpretation of their methods (sa/tablemodel.py, sa/minieval.py): every table state '
+               'reachable from the zeroed table under insert / delete over a small key universe with chosen hashes (clusters collide, wrap '
+               'around the end of the array, survive the resize at the fifth insertion), two values per key on a smaller universe, and a '
+               'long fill-and-drain history through several resizes. In every state: count, no duplicate key, values, the linear-probing '
+               'invariant (no empty slot between the home slot of a key and the slot it occupies), get / has / next / copy_from / clear '
+               'against a reference dictionary; no failed assertion, no slot outside the array, no hash % 0, no probe that does not end, no '
+               'released string left in a slot; TagMap::set(k, k) retracts the rule. Payload obligations per table: del/cluster-move '
                'empties the old slot and writes every field of the item struct in the new slot; set/add writes every field. '
                '(3) Array<T>: grow-before-shift in insert, exactly one count decrement in remove/remove_unordered, copy_from '
-               'allocates count items. (4) property-list copies append at the tail and deep-copy, remove_property leaves the function right after the first removal unless all occurrences were requested, and set_gds_property / get_or_add_property either update an existing entry or link a new one, never both (CFG reachability). Decides these structural '
-               'necessary conditions; does not decide equivalence with an abstract map over operation histories, nor sort.')
-ASSUMPTIONS = ['the obligations in sa/hashtable.py state what linear probing with in-place cluster repair requires; they were checked against the pinned tree by reading',
-               'hash() is total and deterministic (not analysed)']
+               'allocates count items. (4) property-list copies append at the tail and deep-copy, remove_property leaves the function right after the first removal unless all occurrences were requested, and set_gds_property / get_or_add_property either update an existing entry or link a new one, never both (CFG reachability). '
+               'The table model is exhaustive for the explored universes (5-6 keys, capacities 8 and 16) and one long history; larger tables and other hash assignments are not explored, and sort is decided only as far as the heap index discipline.')
+ASSUMPTIONS = ['the harness of sa/tablemodel.py answers allocate_clear / free_allocation / copy_string / strcmp / hash; hash() itself is assumed total and deterministic (not analysed)',
+               'a defect of a table that needs more than six keys, a capacity above 64 or a particular hash pattern outside the explored ones to show is not found']
 XREF_FILES = ['src/property.cpp', 'src/style.cpp']
 
 # table name -> (record-qualified-name regex, item struct regex, insert method)
@@ -90,59 +91,69 @@ def method_of(db, tname, spec, m):
     return out
 
 
-def check_tables(ctx, db, rule='R-CLONE.table'):
-    """The four tables: semantic obligations per method (sa/hashtable.py: events on the CFG, affine loop summaries, linear
-    forms through temporaries), decided once per source definition. No text of any method is compared with a stored
-    skeleton: a refactoring that keeps the events keeps the verdict."""
-    from .. import hashtable
-    n_funcs = 0
-    for tname, spec in TABLES.items():
-        for mname in METHODS:
-            fs = method_of(db, tname, spec, mname)
-            if not fs:
-                if mname == 'has' and tname == 'StyleMap':
-                    continue  # StyleMap has no has_key(); its get() is covered by the lookup-guard obligation
-                raise AnalysisBroken('hash table method missing: %s::%s' % (tname, mname))
-            seen = set()
-            for f in fs:
-                ctx.touch(f)
-                n_funcs += 1
-                if (f.file, f.line) in seen or f.body is None:
-                    continue
-                seen.add((f.file, f.line))
-                hashtable.CHECKS[mname](ctx, hashtable.M(db, f, tname, spec), rule)
-            if tname == 'TagMap' and mname == 'insert':
-                # TagMap::set(k, k) retracts the rule for k: the identity mapping is the representation of an empty slot
-                f = fs[0]
-                p0, p1 = ('v%d:%s' % (f.params[i_]['d'], f.params[i_]['n']) for i_ in (0, 1))
-                ok = False
-                for iff in f.walk():
-                    if iff.k != 'IfStmt':
-                        continue
-                    c = flow._strip_casts(iff.child('cond'))
-                    if c.k == 'BinaryOperator' and c.op == '==' and {lvalue_key(flow._strip_casts(c.child('lhs'))), lvalue_key(flow._strip_casts(c.child('rhs')))} == {p0, p1}:
-                        th = iff.child('then')
-                        dl = [x for x in th.walk() if x.k == 'CXXMemberCallExpr' and (x.callee or '').endswith('::del') and lvalue_key(flow._strip_casts(x.args[0])) == p0]
-                        gsl = next((x for x in f.walk() if x.k == 'CXXMemberCallExpr' and (x.callee or '').endswith('::get_slot')), None)
-                        ok = bool(dl) and any(x.k == 'ReturnStmt' and x.pos > dl[0].pos for x in th.walk()) and gsl is not None and iff.pos < gsl.pos
-                ctx.check(ok, rule, 'table/insert/TagMap-identity-prologue', f.loc(), 'TagMap::set(k, k) deletes the key (identity mapping is the empty slot)',
-                          'TagMap::set lost its `key == value -> del(key); return` prologue: an identity entry would be stored as an empty slot marker / an existing rule for the key survives')
-    ctx.require('R-CLONE.table methods', n_funcs, 27)
-    # every look-up path (has/get/del) tests count == 0 before get_slot (capacity may be 0: `% capacity`)
-    ng = 0
-    for tname, spec in TABLES.items():
-        for f in db.functions:
-            if not (f.rec and re.match(spec['rec'], f.rec)) or f.name in (spec['insert'], 'get_slot'):
-                continue
-            g = f.cfg
-            for c in f.walk():
-                if c.k == 'CXXMemberCallExpr' and (c.callee or '').endswith('::get_slot') and c.child('obj').k == 'CXXThisExpr':
-                    ng += 1
-                    guards = [i for i in f.walk() if i.k == 'IfStmt' and i.child('cond').k == 'BinaryOperator' and i.child('cond').op == '==' and lvalue_key(i.child('cond').child('lhs')) == 'this->count' and i.child('cond').child('rhs').cv == 0 and
-                              i.child('then') is not None and any(r.k == 'ReturnStmt' for r in i.child('then').walk()) and g.node_dominates(i.child('cond'), c)]
-                    ctx.check(bool(guards), 'R-GUARD.table', '%s::%s/count==0-before-get_slot' % (f.rec.replace('gdstk::', ''), f.name), c.loc(),
-                              'get_slot is dominated by the `count == 0 -> return` guard (an empty table may have capacity 0)')
-    ctx.require('R-GUARD.table get_slot callers', ng, 10)
+def check_tables(ctx, db, rule='R-MODEL.table'):
+    """The four tables, model-checked by interpretation of their methods (sa/tablemodel.py): breadth-first over every table
+    state reachable from the zeroed table under insert / delete of the keys of a small universe whose hashes are chosen (three
+    keys share the last home slot, so clusters wrap around the end of the array; the fifth insertion resizes), with two values
+    per key on a smaller universe (replacement), plus one long fill-and-drain history through several resizes. In every
+    state: count, no duplicate, the linear-probing invariant (every entry reachable from its home slot), look-ups, iteration,
+    copy_from and clear against a reference dictionary; no failed assertion, no slot outside the array, no `% 0`, no
+    non-terminating probe, no released string left in a slot. The statement form of the methods does not enter."""
+    from .. import tablemodel as TM
+    full = ctx.tier == 'thorough'
+    total_states = total_ops = 0
+    home = [7, 15, 23, 0, 6, 14, 1]
+    for tname in ('Map', 'Set', 'TagMap', 'StyleMap'):
+        spec = TM.SPECS[tname]
+        try:
+            h = TM.Harness(db, tname)
+        except AnalysisBroken:
+            raise
+        for f in h.fns.values():
+            ctx.touch(f)
+        K = (lambda i_: 'k%d' % i_) if spec['kind'] == 'str' else (lambda i_: i_ + 1)
+        vals = {'Map': [11, 12], 'Set': [None], 'TagMap': [100, 101], 'StyleMap': ['x', 'y']}[tname]
+        runs = [(6 if full else 5, vals[:1]), (4 if full else 3, vals)]
+        if tname == 'TagMap':
+            runs.append((3, [100, 2]))          # a value equal to another key, and set(k, k) through the identity rule below
+        anchor = h.fns[spec['insert']]
+        for nkeys, vs in runs:
+            uni = [K(i_) for i_ in range(nkeys)]
+            hs = {K(i_): home[i_] for i_ in range(nkeys)}
+            key = '%s/states|%d keys, %d value%s' % (tname, nkeys, len(vs), '' if len(vs) == 1 else 's')
+            try:
+                st, ops = h.explore(uni, hs, vs if tname != 'TagMap' or vs != [100, 2] else [100, 2])
+                total_states += st
+                total_ops += ops
+                ctx.ok(rule, key, anchor.loc(), '%d states, %d operations: every state is a faithful table of the reference dictionary' % (st, ops))
+            except TM.Failed as ex:
+                ctx.violation(rule, key, anchor.loc(), '%s does not behave as a %s: %s' % (tname, 'set' if tname == 'Set' else 'map', ex))
+        key = '%s/fill-and-drain' % tname
+        try:
+            ops = h.fill_and_drain(40 if full else 24)
+            total_ops += ops
+            ctx.ok(rule, key, anchor.loc(), '%d operations through every resize and back to the empty table' % ops)
+        except TM.Failed as ex:
+            ctx.violation(rule, key, anchor.loc(), '%s does not behave as a %s: %s' % (tname, 'set' if tname == 'Set' else 'map', ex))
+        if tname == 'TagMap':
+            # set(k, k) retracts the rule for k: the identity mapping is the representation of an empty slot
+            try:
+                hs = {1: 7, 2: 15, 3: 23}
+                h.hashes = hs
+                h.keep = []
+                t = TM.M.Obj(capacity=0, count=0, items=0)
+                h.freed = set()
+                for k_, v_ in ((1, 100), (2, 100), (3, 100), (2, 2)):
+                    h.call(t, 'set', k_, v_)
+                h.check_state(t, {1: 100, 3: 100}, 'set(1,100) -> set(2,100) -> set(3,100) -> set(2,2)')
+                h.call(t, 'set', 5 if False else 1, 1)
+                h.check_state(t, {3: 100}, '... -> set(1,1)')
+                ctx.ok(rule, 'TagMap/identity-retracts', anchor.loc(), 'set(k, k) removes the rule for k')
+            except TM.Failed as ex:
+                ctx.violation(rule, 'TagMap/identity-retracts', anchor.loc(), 'TagMap::set(k, k) must delete the rule for k (the identity mapping is the empty-slot marker): %s' % ex)
+    ctx.explored['valuations'] += total_ops
+    ctx.require('R-MODEL.table states explored', total_states, 600)
+    ctx.require('R-MODEL.table operations interpreted', total_ops, 6000)
 
 
 def check_payload(ctx, db, rule='R-PAYLOAD'):
@@ -714,7 +725,7 @@ def run(ctx):
 
 
 MANIFEST = dict(
-   text='Decides structural necessary conditions of the container models on all paths: (1) check-then-use null contradictions in every property-list function (a pointer the function itself null-tests, re-assigned from a list tail and dereferenced untested); (2) the four open-addressing tables (Map<T>, Set<T>, TagMap, StyleMap; every member instantiated explicitly) meet per-method event obligations decided on the CFG with affine loop summaries and linear forms through temporaries, pointer or index cursors alike, no stored text (probe starts at items + hash % capacity and wraps at items+capacity after every step, load-factor test before get_slot, count++ only on an empty slot, del = empty + count-- + cluster re-insertion until the first empty slot, resize re-inserts every occupied item then clears, next bounded by items+capacity), payload obligations (old slot emptied, every item field written), count==0 guard before every look-up; (3) Array<T> bookkeeping; (4) property-list copies append at the tail and deep-copy, remove_property leaves the function right after the first removal unless all occurrences were requested, and set_gds_property / get_or_add_property either update an existing entry or link a new one, never both (CFG reachability). (5) heap sort (introsort fallback): child/parent index formulas evaluated for small indices, every comparison of a child index with the inclusive bound `end` is `<=`, the build phase passes count-1, after the maximum is swapped to items[end] the sift range excludes that slot, and the elements saved by insertion_sort, sift_down and partition are copies, not references into the array being rearranged. Does not decide equivalence with an abstract map/multimap over operation histories, nor that sort orders every input (value-dependent; only the index discipline of the heap part is decided).',
-   note='Trusted: clang 14 front end, gx, sa rules; the table obligations (sa/hashtable.py) are semantic and form-independent; hash() not analysed.',
-   technique='per-method event obligations on the clang CFG with affine loop summaries (hash tables, heap sort) + nullness dataflow (check-then-use contradiction) + CFG reachability (update xor insert)',
+   text='Decides structural necessary conditions of the container models on all paths: (1) check-then-use null contradictions in every property-list function (a pointer the function itself null-tests, re-assigned from a list tail and dereferenced untested); (2) the four open-addressing tables (Map<T>, Set<T>, TagMap, StyleMap; every member instantiated explicitly) are model-checked by interpreting their methods (sa/tablemodel.py): breadth-first over every state reachable from the zeroed table under insert/delete of a small key universe with chosen hashes (colliding clusters that wrap around the array end, the resize at the fifth insertion), two values per key on a smaller universe, plus a fill-and-drain history through several resizes; in every state count, absence of duplicates, values, the linear-probing reachability invariant, get/has/next/copy_from/clear agree with a reference dictionary, and no assertion fails, no slot outside the array is touched, no hash % 0, no non-terminating probe, no released string stays in a slot; statement forms (early returns, flags, helpers, pointer or index walks) do not enter; payload obligations (old slot emptied, every item field written); (3) Array<T> bookkeeping; (4) property-list copies append at the tail and deep-copy, remove_property leaves the function right after the first removal unless all occurrences were requested, and set_gds_property / get_or_add_property either update an existing entry or link a new one, never both (CFG reachability). (5) heap sort (introsort fallback): child/parent index formulas evaluated for small indices, every comparison of a child index with the inclusive bound `end` is `<=`, the build phase passes count-1, after the maximum is swapped to items[end] the sift range excludes that slot, and the elements saved by insertion_sort, sift_down and partition are copies, not references into the array being rearranged. Equivalence of the tables with an abstract map is decided for the explored universes only (5-6 keys, capacities 8-64), not for every history; nor that sort orders every input (value-dependent; only the index discipline of the heap part is decided).',
+   note='Trusted: clang 14 front end, gx, sa rules, the interpreter sa/minieval.py and the table harness sa/tablemodel.py (allocation, string and hash primitives are answered by the harness); hash() not analysed.',
+   technique='explicit-state model checking of the hash tables by abstract interpretation of their source over small universes (no compiled code is run) + per-method index obligations with affine loop summaries (heap sort) + nullness dataflow (check-then-use contradiction) + CFG reachability (update xor insert)',
    design='§4 C20')
